@@ -335,6 +335,27 @@ fn build(case: &Value) -> (String, Expectation) {
                     }
                 }
             }
+            "cap_func" | "shadow_func" => {
+                // a helper that works on the builder it captures from the enclosing scope; nobody reads
+                // what it returns. shadow_func calls it from a function that has a local of the same name
+                let body = op_src(&recv(var), &st["op"], computed);
+                src += &format!("do g{fi}() start\n    {body}\n    return 7\nend\n");
+                if st["s"] == "shadow_func" && var >= slots {
+                    src += &format!(
+                        "do h{fi}() start\n    make c{var} get command(\"shadow\")\n    c{var}.arg(\"local only\")\n    make u get g{fi}()\n    return 0\nend\nmake w{fi} get h{fi}()\n"
+                    );
+                } else {
+                    src += &format!("make u{fi} get g{fi}()\n");
+                }
+                fi += 1;
+                if live
+                    && let Some(c) = model.get_mut(&var)
+                    && let Err(why) = apply(c, &st["op"])
+                {
+                    exp.ending = Some(vec!["Invalid process configuration"]);
+                    *exp.refusals.entry(why).or_default() += 1;
+                }
+            }
             "run" => {
                 src += &format!("make r{nrun} get {}.run()\nshout(\"ran {nrun}\")\n", recv(var));
                 if live && let Some(c) = model.get(&var) {
@@ -470,7 +491,7 @@ impl Engine for C15 {
                 0..=9 => steps.push(json!({"s": "op", "var": var, "op": gen_op(&mut r), "computed": computed})),
                 10 | 11 => steps.push(json!({"s": "loop_op", "var": var, "op": gen_op(&mut r), "n": r.range(1, 3), "computed": computed})),
                 12 | 13 => steps.push(json!({"s": "via_func", "var": var, "op": gen_op(&mut r), "computed": computed})),
-                14 => steps.push(json!({"s": "touch_func", "var": var, "op": gen_op(&mut r), "computed": computed})),
+                14 => steps.push(json!({"s": r.pick(&["touch_func", "cap_func", "shadow_func"]), "var": var, "op": gen_op(&mut r), "computed": computed})),
                 15 | 16 => {
                     // copy into a variable not made yet (plain vars) or any slot
                     let candidates: Vec<usize> = (0..nvars).filter(|v| *v < slots || !made.contains(v)).collect();
@@ -708,7 +729,7 @@ impl Engine for C15 {
         }
         for i in 0..steps.len() {
             match steps[i]["s"].as_str().unwrap() {
-                "loop_op" | "via_func" | "touch_func" => {
+                "loop_op" | "via_func" | "touch_func" | "cap_func" | "shadow_func" => {
                     let mut s = steps.clone();
                     s[i]["s"] = json!("op");
                     v.push(set("steps", json!(s)));
@@ -771,7 +792,7 @@ impl Engine for C15 {
     fn rule(&self) -> String {
         "case = host policy (allow_process, every ProcessCaps field drawn small so each limit is hit at limit-1/limit/limit+1) \
          x builder history over 1-3 commands (arg/env with repeated keys/cwd/stdin_*/stdout_*/stderr_*/timeout_ms through plain \
-         variables, array slots, copies, functions that return or discard their mutated copy, loop bodies; adversarial strings: \
+         variables, array slots, copies, functions that return or discard their mutated copy, helpers that mutate the builder they capture (result unused; also called from a function with a local of the same name), loop bodies; adversarial strings: \
          spaces, quotes, $HOME, globs, ;|&, newline, backslash, NUL, '=', braces, multi-byte; numbers, booleans, arrays as values; \
          literals and run-time concatenations) x run() calls x injected spawn errors x 2 schedules. Every run is non-trivial \
          (each ends in at least one spawn or refusal); distinct = hash of script text and world history."
